@@ -27,6 +27,17 @@ for d, _dn, fs in sorted(os.walk(os.path.join(root, "src", "basilisp"))):
                 n += sum(len(v) for v in t.values())
 with open(canon.ROLES_PATH, "w", encoding="utf-8") as fh:
     json.dump(out, fh, indent=0, sort_keys=True)
+# the module-level functions of the reference tree: helpers the rules know as calls (never inlined by
+# canon.inline_expression_helpers)
+mf = {}
+for d, _dn, fs in sorted(os.walk(os.path.join(root, "src", "basilisp"))):
+    for f in sorted(fs):
+        if f.endswith(".py"):
+            p = os.path.join(d, f)
+            t = ast.parse(open(p, encoding="utf-8").read())
+            mf[os.path.relpath(p, root)] = sorted(x.name for x in t.body if isinstance(x, ast.FunctionDef))
+with open(canon.MODULE_FUNCTIONS_PATH, "w", encoding="utf-8") as fh:
+    json.dump(mf, fh, indent=0, sort_keys=True)
 print(f"{len(out)} modules, {sum(len(v) for v in out.values())} functions, {n} binding sites -> {canon.ROLES_PATH}")
 
 lout = {}
